@@ -25,7 +25,7 @@ def gen_radii(rng, n):
     return rs
 
 
-def gen_cluster(rng, n=None, periodic=None, tree=None, line=False, big=False):
+def gen_cluster(rng, n=None, periodic=None, tree=None, line=False, big=False, fast=False):
     """A cluster/chain of n spheres with many simultaneous overlaps; optional periodic box with images.
     big: many spheres whose radii exceed the tree cells they sit in (stresses the tree-walk pruning radius)."""
     if n is None:
@@ -71,6 +71,20 @@ def gen_cluster(rng, n=None, periodic=None, tree=None, line=False, big=False):
                t=rng.choice([1.0, 0.5, 3.25]), dt=rng.choice([0.01, 0.1, 0.5, -0.1]) if line else 0.01)
     if cfg["tree"]:
         cfg["mode"] = "linetree" if line else "tree"
+    if fast and line:
+        # small fast spheres moving mainly along z: paths cross during the step although the end positions are far apart,
+        # so LINETREE must rely on its drift terms (|dt||v1| and maxdrift) to reach the partner's cell
+        cfg["dt"] = rng.choice([0.5, -0.5, 1.0])
+        V = rng.choice([1.0, 2.0, 4.0])
+        cfg["vx"] = [rng.gauss(0, 0.1) for _ in range(n)]
+        cfg["vy"] = [rng.gauss(0, 0.1) for _ in range(n)]
+        cfg["vz"] = [rng.gauss(0, V) for _ in range(n)]
+        cfg["r"] = [rng.uniform(0.05, 0.3) for _ in range(n)]
+        s = rng.choice([0.5, 1.0])
+        lim = box / 2 * 0.999
+        cfg["x"] = [min(max(rng.gauss(0, s), -lim), lim) for _ in range(n)]
+        cfg["y"] = [min(max(rng.gauss(0, s), -lim), lim) for _ in range(n)]
+        cfg["z"] = [min(max(rng.gauss(0, 2.0), -lim), lim) for _ in range(n)]
     return cfg
 
 
@@ -231,6 +245,29 @@ def particles(cfg, lc=0.0):
         out.append("mkF %s (%d)%%Z" % (" ".join(vlib.fhex(cfg[k][i]) for k in ("x", "y", "z", "vx", "vy", "vz", "m", "r"))
                                   + " " + vlib.fhex(lc), 1000 + i))
     return "[" + "; ".join(out) + "]"
+
+
+def particles_from_sim(sim, lc=None):
+    out = []
+    for i in range(sim.N):
+        q = sim.particles[i]
+        vals = [q.x, q.y, q.z, q.vx, q.vy, q.vz, q.m, q.r, q.last_collision if lc is None else lc]
+        out.append("mkF %s (%d)%%Z" % (" ".join(vlib.fhex(v) for v in vals), q.hash.value))
+    return "[" + "; ".join(out) + "]"
+
+
+def gcell_term(cell):
+    """dumped reb_treecell (c15_lib.dump_cell dict) -> Coq term of type option (gcell float)"""
+    if cell is None:
+        return "None"
+    if cell["pt"] >= 0:
+        return "Some (GL %d%%nat)" % cell["pt"]
+    return "Some (GN %s %s %s %s [%s])" % (vlib.fhex(cell["x"]), vlib.fhex(cell["y"]), vlib.fhex(cell["z"]), vlib.fhex(cell["w"]),
+                                          "; ".join(gcell_term(d) for d in cell["oct"]))
+
+
+def roots_term(forest):
+    return "[" + "; ".join(gcell_term(c) for c in forest) + "]"
 
 
 # ------------------------------------------------------------------------------------------ exact oracles
